@@ -1482,4 +1482,59 @@ theorem ancestor_update_succeeds (mode : Mode) (A alpha beta : Option Entry) (re
   rw [this]
   exact h2
 
+
+theorem handleDisagreement_actions_nil (mode : Mode) (path : Path) (a al be : Option Entry)
+    (h : (handleDisagreement mode path a al be).actionPaths = []) : mode = .oneWaySafe := by
+  unfold handleDisagreement at h
+  cases mode
+  · rw [handleBidirectional_actions] at h; cases h
+  · rw [handleBidirectional_actions] at h; cases h
+  · rfl
+  · rw [handleOneWayReplica_actions] at h; cases h
+
+/-- Where a side holds unsynchronizable residue at a disagreeing path, that
+side is not touched, and the disagreement is answered by exactly one of: a
+conflict rooted at the path, a change of the *other* side at the path, or (only
+in one-way-safe mode) no action at all. -/
+theorem residue_blocks (mode : Mode) (path : Path) (a al be : Option Entry) :
+    (diff path (osync be) be ≠ [] →
+      (handleDisagreement mode path a al be).beta = [] ∧
+      ((handleDisagreement mode path a al be).conflicts.map (·.root) = [path] ∨
+       (handleDisagreement mode path a al be).alpha.map (·.path) = [path] ∨
+       (mode = .oneWaySafe ∧ (handleDisagreement mode path a al be).actionPaths = []))) ∧
+    (diff path (osync al) al ≠ [] →
+      (handleDisagreement mode path a al be).alpha = [] ∧
+      ((handleDisagreement mode path a al be).conflicts.map (·.root) = [path] ∨
+       (handleDisagreement mode path a al be).beta.map (·.path) = [path] ∨
+       (mode = .oneWaySafe ∧ (handleDisagreement mode path a al be).actionPaths = []))) := by
+  have hc := handleDisagreement_clean mode path a al be
+  have hact := handleDisagreement_actions mode path a al be
+  constructor
+  · intro hne
+    have hb : (handleDisagreement mode path a al be).beta = [] := by
+      cases hl : (handleDisagreement mode path a al be).beta with
+      | nil => rfl
+      | cons c cs =>
+        exact absurd (diff_nil_of_sameTree path _ _ (hc.2 c (by rw [hl]; simp)).2) hne
+    refine ⟨hb, ?_⟩
+    rcases hact with h | h
+    · simp only [Plan.actionPaths, hb, List.map_nil, List.append_nil] at h
+      rcases List.append_eq_singleton_iff.mp h with ⟨h1, h2⟩ | ⟨h1, h2⟩
+      · exact Or.inl h2
+      · exact Or.inr (Or.inl h1)
+    · exact Or.inr (Or.inr ⟨handleDisagreement_actions_nil mode path a al be h, h⟩)
+  · intro hne
+    have ha : (handleDisagreement mode path a al be).alpha = [] := by
+      cases hl : (handleDisagreement mode path a al be).alpha with
+      | nil => rfl
+      | cons c cs =>
+        exact absurd (diff_nil_of_sameTree path _ _ (hc.1 c (by rw [hl]; simp)).2) hne
+    refine ⟨ha, ?_⟩
+    rcases hact with h | h
+    · simp only [Plan.actionPaths, ha, List.map_nil, List.nil_append] at h
+      rcases List.append_eq_singleton_iff.mp h with ⟨h1, h2⟩ | ⟨h1, h2⟩
+      · exact Or.inl h2
+      · exact Or.inr (Or.inl h1)
+    · exact Or.inr (Or.inr ⟨handleDisagreement_actions_nil mode path a al be h, h⟩)
+
 end Mutagen.Model
